@@ -578,6 +578,68 @@ func runC05(c *rt.Ctx) {
 		}
 		tripleHistories(c, steps)
 	}
+	{
+		// hooks that use the library themselves: an "always URN" Formatter built on ID.URN, a Parser that forbids forms by
+		// adding rules - on one goroutine (a lock held across the hook) and from all workers at once (a guard that counts
+		// calls in progress and sends the overflow past the configured Parser)
+		oldF, oldP := uu.Formatter, uu.Parser
+		uu.Formatter = func(buf []byte, id uu.ID, f uu.Format) ([]byte, error) { return append(buf, id.URN()...), nil }
+		uu.Parser = func(in []byte, r uu.Rule) (uu.ID, error) {
+			if _, err := uu.DefaultParser("f81d4fae-7dec-11d0-a765-00a0c91e6bf6", 0); err != nil { // a lookup the hook makes on its own
+				return uu.ID{}, err
+			}
+			return uu.DefaultParser(in, r|uu.RuleDisableURN|uu.RuleDisableUpperCaseDigits)
+		}
+		c.Serial("hooks-that-call-the-library", func(w *rt.W) {
+			id := uu.ID{Higher: 0xf81d4fae7dec11d0, Lower: 0xa76500a0c91e6bf6}
+			want := "urn:uuid:" + ref.UUIDText(id.Higher, id.Lower)
+			var s1, s2, s3 string
+			var mt []byte
+			ok := callMustReturn(w, "ID.String under a Formatter that calls ID.URN", rt.Args("hook", "Formatter = append(buf, id.URN()...)"), func() {
+				s1 = id.String()
+				s2 = fmt.Sprintf("%s", id)
+				s3 = fmt.Sprintf("%v|%u", id, id)
+				mt, _ = id.MarshalText()
+			})
+			w.Eval(4)
+			if ok && (s1 != want || s2 != want || string(mt) != want || !strings.HasSuffix(s3, want)) {
+				w.Fail("configured-formatter-not-used", "reentrant", rt.Args("hook", "Formatter = append(buf, id.URN()...)"), fmt.Sprint(s1, " ", s2, " ", s3, " ", string(mt)), want, "String, the verbs and MarshalText use the Formatter variable")
+			}
+			var got uu.ID
+			var err error
+			ok = callMustReturn(w, "ID.UnmarshalText under a Parser that calls DefaultParser", rt.Args("hook", "Parser = DefaultParser(in, r|RuleDisableURN|RuleDisableUpperCaseDigits)"), func() {
+				err = got.UnmarshalText([]byte(want))
+			})
+			w.Eval(1)
+			if ok && (err == nil || got != (uu.ID{})) {
+				w.Fail("configured-parser-not-used", "reentrant", rt.Args("text", want), fmt.Sprint(got, " ", err), "refused: the configured Parser forbids the URN form", "UnmarshalText uses the Parser variable")
+			}
+			w.ClassN("hooks-that-call-the-library", 1)
+		})
+		c.Parallel("configured-parser-under-concurrency", 0, func(w *rt.W) {
+			plain := ref.UUIDText(w.Rng.U64(), w.Rng.U64())
+			for i := 0; i < 20000; i++ {
+				text := "urn:uuid:" + plain
+				if i%2 == 1 {
+					text = strings.ToUpper(plain)
+					if text == plain {
+						continue
+					}
+				}
+				var got uu.ID
+				err := got.UnmarshalText([]byte(text))
+				w.Eval(1)
+				if err == nil || got != (uu.ID{}) {
+					w.Fail("configured-parser-bypassed-under-concurrency", "reentrant", rt.Args("text", text), fmt.Sprint(got, " ", err), "refused: the configured Parser adds RuleDisableURN and RuleDisableUpperCaseDigits", "UnmarshalText uses the Parser variable, also while other goroutines are inside UnmarshalText")
+					break
+				}
+			}
+			w.ClassN("configured-parser-under-concurrency", 1)
+		})
+		uu.Formatter, uu.Parser = oldF, oldP
+		c.Require("hooks-that-call-the-library", 1)
+		c.Require("configured-parser-under-concurrency", 2)
+	}
 	// many digit positions wrong at once: counters of invalid digits, accumulated flags and checksums that cancel out
 	c.Parallel("many-invalid-digits", 0, func(w *rt.W) {
 		plain := "f81d4fae-7dec-11d0-a765-00a0c91e6bf6"
